@@ -387,6 +387,11 @@ def check_sentinels_by_reference(ctx):
         for n in ast.walk(mac.node):
             if isinstance(n, ast.Assign) and isinstance(n.value, ast.Name) and n.value.id == sname:
                 tainted |= {t.id for t in n.targets if isinstance(t, ast.Name)}
+            # a helper that may return the sentinel
+            if isinstance(n, ast.Assign) and isinstance(n.value, ast.Call):
+                t_ = m.resolve_call(mac, n.value)
+                if t_.kind == "func" and any(isinstance(x, ast.Return) and isinstance(x.value, ast.Name) and x.value.id == sname for x in ast.walk(t_.target.node)):
+                    tainted |= {t.id for t in n.targets if isinstance(t, ast.Name)}
             if isinstance(n, ast.Compare) and len(n.ops) == 1 and isinstance(n.ops[0], (ast.Is, ast.IsNot)):
                 l, rr = n.left, n.comparators[0]
                 if isinstance(rr, ast.Name) and rr.id == sname and isinstance(l, ast.Name):
